@@ -43,10 +43,20 @@ const (
 
 type c08NodeSpec struct {
 	Client string `json:"client"`
+	Ver    string `json:"ver"` // "ok" | "fail": does the node answer its version query during THIS submission
 	Out    string `json:"out"`
 	Reason string `json:"reason"`
 }
 
+// c08CallSpec is one submission of a history on one instance.
+type c08CallSpec struct {
+	Kind  string        `json:"kind"`
+	Items int           `json:"items"`
+	Nodes []c08NodeSpec `json:"nodes"`
+}
+
+// A scenario is a HISTORY of submissions on ONE submitter instance (Calls); a scenario without
+// Calls is the history of one submission described by Kind / Items / Nodes.
 type c08Scenario struct {
 	Sc      int           `json:"sc"`
 	Sub     string        `json:"sub"`
@@ -54,7 +64,26 @@ type c08Scenario struct {
 	Conc    int           `json:"conc"`
 	Items   int           `json:"items"`
 	Nodes   []c08NodeSpec `json:"nodes"`
+	Calls   []c08CallSpec `json:"calls"`
 	MaxConc int           `json:"maxConc"` // scatter scenarios
+}
+
+// calls returns the history with defaults filled in.
+func (sc *c08Scenario) calls() []c08CallSpec {
+	cs := sc.Calls
+	if len(cs) == 0 {
+		cs = []c08CallSpec{{Kind: sc.Kind, Items: sc.Items, Nodes: sc.Nodes}}
+	}
+	out := make([]c08CallSpec, len(cs))
+	for i, c := range cs {
+		out[i] = c08CallSpec{Kind: c.Kind, Items: c.Items, Nodes: append([]c08NodeSpec{}, c.Nodes...)}
+		for k := range out[i].Nodes {
+			if out[i].Nodes[k].Ver == "" {
+				out[i].Nodes[k].Ver = "ok"
+			}
+		}
+	}
+	return out
 }
 
 // ---------------------------------------------------------------------------------------------
@@ -114,14 +143,17 @@ func (p *c08Probe) maxGap(from, to time.Time) time.Duration {
 // ---------------------------------------------------------------------------------------------
 // scripted beacon node
 
+// c08Node is what one node does at ONE submission of the history (and what was seen of it).
 type c08Node struct {
-	idx    int
-	spec   c08NodeSpec
-	kind   string
-	t0     time.Time
-	index  map[any]int // payload element (pointer identity) -> index
-	items  int
-	closed chan struct{}
+	idx     int
+	spec    c08NodeSpec
+	kind    string
+	t0      time.Time
+	index   map[any]int // payload element (pointer identity) -> index
+	items   int
+	closed  chan struct{} // the history is over
+	release chan struct{} // "held" replies: the next submission of the history has returned
+	onEnter func()        // held nodes: tells the history that the node has been called
 
 	mu        sync.Mutex
 	chunks    [][]int
@@ -131,12 +163,57 @@ type c08Node struct {
 	lastRet   time.Duration
 	anyErr    bool
 	aborted   bool
+	verAsked  int
+	verOK     int
 }
 
-func (n *c08Node) Name() string    { return "c08-" + n.spec.Client }
-func (n *c08Node) Address() string { return fmt.Sprintf("node%d:5052", n.idx) }
-func (n *c08Node) IsActive() bool  { return true }
-func (n *c08Node) IsSynced() bool  { return true }
+// c08CallKey marks the context of a submission with its index in the history: the submitter hands
+// the caller's context to every node call and version query, so the fakes know which submission
+// they are serving also when two submissions overlap.
+type c08CallKey struct{}
+
+// c08Peer is a beacon node as the long-lived submitter instance sees it: one object, one address
+// and one client type for the whole history; what it does is scripted per submission.
+type c08Peer struct {
+	idx    int
+	client string
+
+	mu    sync.Mutex
+	calls map[int]*c08Node
+	last  int
+}
+
+func (p *c08Peer) Name() string    { return "c08-" + p.client }
+func (p *c08Peer) Address() string { return fmt.Sprintf("node%d:5052", p.idx) }
+func (p *c08Peer) IsActive() bool  { return true }
+func (p *c08Peer) IsSynced() bool  { return true }
+
+func (p *c08Peer) begin(call int, n *c08Node) {
+	p.mu.Lock()
+	p.calls[call] = n
+	p.last = call
+	p.mu.Unlock()
+}
+
+// node returns the script of the submission that ctx belongs to (the latest submission if the
+// code under test did not pass the caller's context on).
+func (p *c08Peer) node(ctx context.Context) *c08Node {
+	id, ok := ctx.Value(c08CallKey{}).(int)
+	p.mu.Lock()
+	defer p.mu.Unlock()
+	if !ok {
+		id = p.last
+	}
+	return p.calls[id]
+}
+
+func (p *c08Peer) submit(ctx context.Context, elems []any) error {
+	n := p.node(ctx)
+	if n == nil {
+		return errors.New("c08: no submission in progress")
+	}
+	return n.submit(ctx, elems)
+}
 
 var c08Versions = map[string]string{
 	"lighthouse": "Lighthouse/v5.1.3-3058b96/x86_64-linux",
@@ -146,12 +223,22 @@ var c08Versions = map[string]string{
 	"lodestar":   "Lodestar/v1.18.0/eca6ef4",
 }
 
-// c08Versioned is a node that tells its version (or fails to: client "broken").
-type c08Versioned struct{ *c08Node }
+// c08Versioned is a node that has a version endpoint.  Whether it answers is part of the script of
+// the submission the query belongs to (ver "fail", or client "broken": never).
+type c08Versioned struct{ *c08Peer }
 
-func (n c08Versioned) NodeVersion(_ context.Context, _ *api.NodeVersionOpts) (*api.Response[string], error) {
-	v, ok := c08Versions[n.spec.Client]
-	if !ok {
+func (p c08Versioned) NodeVersion(ctx context.Context, _ *api.NodeVersionOpts) (*api.Response[string], error) {
+	n := p.node(ctx)
+	v, ok := c08Versions[p.client]
+	if n != nil {
+		n.mu.Lock()
+		n.verAsked++
+		if ok && n.spec.Ver != "fail" {
+			n.verOK++
+		}
+		n.mu.Unlock()
+	}
+	if !ok || n == nil || n.spec.Ver == "fail" {
 		return nil, errors.New("GET failed with status 503")
 	}
 	return &api.Response[string]{Data: v, Metadata: map[string]any{}}, nil
@@ -216,6 +303,9 @@ func (n *c08Node) submit(ctx context.Context, elems []any) error {
 	n.entered++
 	n.chunks = append(n.chunks, ids)
 	n.mu.Unlock()
+	if n.onEnter != nil {
+		n.onEnter()
+	}
 
 	wait := func(d time.Duration) bool {
 		tm := time.NewTimer(d)
@@ -232,6 +322,18 @@ func (n *c08Node) submit(ctx context.Context, elems []any) error {
 	live := true
 	var err error
 	switch n.spec.Out {
+	case "held":
+		// the reply is held back until the next submission on the instance has returned
+		select {
+		case <-n.release:
+		case <-n.closed:
+			live = false
+		case <-ctx.Done():
+			live = false
+		}
+		if n.spec.Reason != "none" && n.spec.Reason != "" {
+			err = errors.New(c08ErrorText(n.spec.Reason, n.spec.Client))
+		}
 	case "accept":
 	case "error":
 		reason := n.spec.Reason
@@ -275,38 +377,38 @@ func c08Any[T any](in []*T) []any {
 	return out
 }
 
-func (n *c08Node) SubmitAttestations(ctx context.Context, a []*phase0.Attestation) error {
+func (n *c08Peer) SubmitAttestations(ctx context.Context, a []*phase0.Attestation) error {
 	return n.submit(ctx, c08Any(a))
 }
 
-func (n *c08Node) SubmitAggregateAttestations(ctx context.Context, a []*phase0.SignedAggregateAndProof) error {
+func (n *c08Peer) SubmitAggregateAttestations(ctx context.Context, a []*phase0.SignedAggregateAndProof) error {
 	return n.submit(ctx, c08Any(a))
 }
 
-func (n *c08Node) SubmitProposal(ctx context.Context, opts *api.SubmitProposalOpts) error {
+func (n *c08Peer) SubmitProposal(ctx context.Context, opts *api.SubmitProposalOpts) error {
 	if opts == nil {
 		return n.submit(ctx, []any{nil})
 	}
 	return n.submit(ctx, []any{opts.Proposal})
 }
 
-func (n *c08Node) SubmitSyncCommitteeMessages(ctx context.Context, a []*altair.SyncCommitteeMessage) error {
+func (n *c08Peer) SubmitSyncCommitteeMessages(ctx context.Context, a []*altair.SyncCommitteeMessage) error {
 	return n.submit(ctx, c08Any(a))
 }
 
-func (n *c08Node) SubmitSyncCommitteeContributions(ctx context.Context, a []*altair.SignedContributionAndProof) error {
+func (n *c08Peer) SubmitSyncCommitteeContributions(ctx context.Context, a []*altair.SignedContributionAndProof) error {
 	return n.submit(ctx, c08Any(a))
 }
 
-func (n *c08Node) SubmitBeaconCommitteeSubscriptions(ctx context.Context, a []*apiv1.BeaconCommitteeSubscription) error {
+func (n *c08Peer) SubmitBeaconCommitteeSubscriptions(ctx context.Context, a []*apiv1.BeaconCommitteeSubscription) error {
 	return n.submit(ctx, c08Any(a))
 }
 
-func (n *c08Node) SubmitSyncCommitteeSubscriptions(ctx context.Context, a []*apiv1.SyncCommitteeSubscription) error {
+func (n *c08Peer) SubmitSyncCommitteeSubscriptions(ctx context.Context, a []*apiv1.SyncCommitteeSubscription) error {
 	return n.submit(ctx, c08Any(a))
 }
 
-func (n *c08Node) SubmitProposalPreparations(ctx context.Context, a []*apiv1.ProposalPreparation) error {
+func (n *c08Peer) SubmitProposalPreparations(ctx context.Context, a []*apiv1.ProposalPreparation) error {
 	return n.submit(ctx, c08Any(a))
 }
 
@@ -510,44 +612,153 @@ func c08ClassCall(d time.Duration, noisy bool) string {
 	}
 }
 
-// c08Observe runs the scenario once.  It returns the trace lines and whether the observation should
-// be repeated: the machine was too noisy for the timing classes to mean anything (probe), or some
-// instant is late in a way that a descheduled thread could explain (the probe cannot see a stall
-// that hits a single OS thread).  Lateness only counts when it shows in every attempt.
+// c08History is one submitter instance and the submissions made on it.
+type c08History struct {
+	sc     *c08Scenario
+	calls  []c08CallSpec
+	conc   int
+	svc    c08Submitter
+	peers  []*c08Peer
+	closed chan struct{}
+	probe  *c08Probe
+
+	returned []chan struct{} // per submission: closed when it has returned (or was given up)
+	release  []chan struct{} // per submission: closed when its held replies may go
+	entered  []chan struct{} // per submission: closed when one of its held nodes has been called
+}
+
+// c08Observe runs the scenario - a history of submissions on ONE instance - once.  Submissions run
+// one after the other, except that a submission with a "held" node reply is overlapped by the next
+// one: the next submission starts as soon as the held node has been called (or after a short grace
+// if the code never gets there) and the held reply is let go once that next submission has
+// returned.  It returns the trace lines (submission by submission, in the order they were started)
+// and whether the observation should be repeated: the machine was too noisy for the timing classes
+// to mean anything (probe), or some instant is late in a way that a descheduled thread could explain
+// (the probe cannot see a stall that hits a single OS thread).  Lateness only counts when it shows
+// in every attempt.
 func c08Observe(sc *c08Scenario, probe *c08Probe, attempt int) ([]verifsupport.Ev, bool, error) {
 	ctx, cancel := context.WithCancel(context.Background())
 	defer cancel()
-	payload, err := c08BuildPayload(ctx, sc.Kind, sc.Items)
-	if err != nil {
-		return nil, false, err
+	calls := sc.calls()
+	if len(calls) == 0 || len(calls[0].Nodes) == 0 {
+		return nil, false, errors.New("scenario without nodes")
 	}
-	index := make(map[any]int, len(payload.elems))
-	for i, e := range payload.elems {
-		index[e] = i
+	h := &c08History{sc: sc, calls: calls, conc: sc.Conc, closed: make(chan struct{}), probe: probe}
+	if sc.Sub == "immediate" {
+		h.conc = 1
 	}
-	closed := make(chan struct{})
-	raw := make([]*c08Node, len(sc.Nodes))
-	nodes := make([]c08All, len(sc.Nodes))
-	allQuick := true
-	for i, ns := range sc.Nodes {
-		raw[i] = &c08Node{idx: i + 1, spec: ns, kind: sc.Kind, index: index, items: payload.items, closed: closed, firstCall: -1}
+	nodes := make([]c08All, len(calls[0].Nodes))
+	for i, ns := range calls[0].Nodes {
+		p := &c08Peer{idx: i + 1, client: ns.Client, calls: map[int]*c08Node{}}
+		h.peers = append(h.peers, p)
 		if ns.Client == "unknown" {
-			nodes[i] = raw[i]
+			nodes[i] = p
 		} else {
-			nodes[i] = c08Versioned{raw[i]}
+			nodes[i] = c08Versioned{p}
 		}
-		if ns.Out != "accept" && ns.Out != "error" {
-			allQuick = false
+	}
+	for _, c := range calls {
+		if len(c.Nodes) != len(h.peers) {
+			return nil, false, errors.New("history with a varying number of nodes")
+		}
+		for i, ns := range c.Nodes {
+			if ns.Client != h.peers[i].client {
+				return nil, false, errors.New("history in which a node changes its client")
+			}
 		}
 	}
 	svc, err := c08NewService(ctx, sc, nodes)
 	if err != nil {
 		return nil, false, err
 	}
-	conc := sc.Conc
-	if sc.Sub == "immediate" {
-		conc = 1
+	h.svc = svc
+	for range calls {
+		h.returned = append(h.returned, make(chan struct{}))
+		h.release = append(h.release, make(chan struct{}))
+		h.entered = append(h.entered, make(chan struct{}))
 	}
+
+	type result struct {
+		lines []verifsupport.Ev
+		again bool
+		err   error
+	}
+	results := make([]result, len(calls))
+	var wg sync.WaitGroup
+	for i := range calls {
+		i := i
+		wg.Add(1)
+		go func() {
+			defer wg.Done()
+			l, again, err := h.observeCall(ctx, i, attempt)
+			results[i] = result{l, again, err}
+		}()
+		hasHeld := false
+		for _, ns := range calls[i].Nodes {
+			if ns.Out == "held" {
+				hasHeld = true
+			}
+		}
+		if hasHeld {
+			// overlap: let go of the held replies once the NEXT submission has returned
+			go func() {
+				if i+1 < len(calls) {
+					<-h.returned[i+1]
+				}
+				close(h.release[i])
+			}()
+			select {
+			case <-h.entered[i]:
+			case <-h.returned[i]:
+			case <-time.After(30 * time.Millisecond):
+			}
+			continue
+		}
+		close(h.release[i])
+		wg.Wait()
+	}
+	wg.Wait()
+	close(h.closed)
+	var lines []verifsupport.Ev
+	again := false
+	for _, r := range results {
+		if r.err != nil {
+			return nil, false, r.err
+		}
+		lines = append(lines, r.lines...)
+		again = again || r.again
+	}
+	return lines, again, nil
+}
+
+// observeCall makes submission i of the history and watches it.
+func (h *c08History) observeCall(ctx context.Context, ci int, attempt int) ([]verifsupport.Ev, bool, error) {
+	sc := h.sc
+	call := h.calls[ci]
+	cctx := context.WithValue(ctx, c08CallKey{}, ci+1)
+	payload, err := c08BuildPayload(cctx, call.Kind, call.Items)
+	if err != nil {
+		close(h.returned[ci])
+		return nil, false, err
+	}
+	index := make(map[any]int, len(payload.elems))
+	for i, e := range payload.elems {
+		index[e] = i
+	}
+	raw := make([]*c08Node, len(call.Nodes))
+	allQuick := true
+	var enteredOnce sync.Once
+	for i, ns := range call.Nodes {
+		raw[i] = &c08Node{idx: i + 1, spec: ns, kind: call.Kind, index: index, items: payload.items, closed: h.closed,
+			release: h.release[ci], firstCall: -1}
+		if ns.Out == "held" {
+			raw[i].onEnter = func() { enteredOnce.Do(func() { close(h.entered[ci]) }) }
+		}
+		if ns.Out != "accept" && ns.Out != "error" {
+			allQuick = false
+		}
+	}
+	conc := h.conc
 	needOffer := conc >= len(raw) || allQuick
 
 	var retMu sync.Mutex
@@ -557,17 +768,21 @@ func c08Observe(sc *c08Scenario, probe *c08Probe, attempt int) ([]verifsupport.E
 	// The origin of all instants is taken on the calling goroutine immediately before the call, so
 	// that the time this goroutine waits to be scheduled is not attributed to the submitter.
 	startCh := make(chan time.Time, 1)
+	var retOnce sync.Once
+	markReturned := func() { retOnce.Do(func() { close(h.returned[ci]) }) }
 	go func() {
 		w0 := time.Now()
-		for _, n := range raw {
+		for i, n := range raw {
 			n.t0 = w0
+			h.peers[i].begin(ci+1, n)
 		}
 		startCh <- w0
-		e := payload.call(svc)
+		e := payload.call(h.svc)
 		d := time.Since(w0)
 		retMu.Lock()
 		returned, retAt, retErr = true, d, e
 		retMu.Unlock()
+		markReturned()
 	}()
 	wall0 := <-startCh
 
@@ -600,8 +815,10 @@ func c08Observe(sc *c08Scenario, probe *c08Probe, attempt int) ([]verifsupport.E
 			break
 		}
 	}
+	// a submission that has not returned by now never returns in time: the history goes on without it
+	markReturned()
 
-	// Snapshot, then let every blocked fake go.
+	// Snapshot (every fake that is still blocked is let go when the history ends).
 	var evs []c08Event
 	retMu.Lock()
 	r, rAt, rErr := returned, retAt, retErr
@@ -613,12 +830,14 @@ func c08Observe(sc *c08Scenario, probe *c08Probe, attempt int) ([]verifsupport.E
 		complete bool
 		last     time.Duration
 		anyErr   bool
+		verAsked int
+		verOK    int
 	}
 	snaps := make([]snap, len(raw))
 	for i, n := range raw {
 		n.mu.Lock()
 		s := snap{called: n.entered > 0, first: n.firstCall, complete: n.entered > 0 && n.returned == n.entered && !n.aborted,
-			last: n.lastRet, anyErr: n.anyErr}
+			last: n.lastRet, anyErr: n.anyErr, verAsked: n.verAsked, verOK: n.verOK}
 		for _, c := range n.chunks {
 			s.chunks = append(s.chunks, append([]int{}, c...))
 		}
@@ -632,8 +851,7 @@ func c08Observe(sc *c08Scenario, probe *c08Probe, attempt int) ([]verifsupport.E
 		snaps[i] = s
 	}
 	end := time.Now()
-	close(closed)
-	noise := probe.maxGap(wall0, end)
+	noise := h.probe.maxGap(wall0, end)
 	noisy := noise > c08NoiseMax
 
 	suspect := !r
@@ -653,21 +871,22 @@ func c08Observe(sc *c08Scenario, probe *c08Probe, attempt int) ([]verifsupport.E
 			suspect = true
 		}
 		evs = append(evs, c08Event{at: s.first, rank: 0, ev: verifsupport.Ev{
-			"sc": sc.Sc, "ev": "Call", "node": i + 1, "chunks": s.chunks, "at": c08ClassCall(s.first, noisy), "us": s.first.Microseconds()}})
+			"sc": sc.Sc, "ev": "Call", "call": ci + 1, "node": i + 1, "chunks": s.chunks, "at": c08ClassCall(s.first, noisy), "us": s.first.Microseconds(),
+			"verAsked": s.verAsked, "verOK": s.verOK}})
 		if s.complete {
 			reply := "accept"
 			if s.anyErr {
 				reply = "error"
 			}
 			evs = append(evs, c08Event{at: s.last, rank: 1, ev: verifsupport.Ev{
-				"sc": sc.Sc, "ev": "Complete", "node": i + 1, "reply": reply, "at": c08ClassT(s.last, noisy), "us": s.last.Microseconds()}})
+				"sc": sc.Sc, "ev": "Complete", "call": ci + 1, "node": i + 1, "reply": reply, "at": c08ClassT(s.last, noisy), "us": s.last.Microseconds()}})
 		}
 	}
 	if r {
 		if sc.Sub != "immediate" && c08ClassT(rAt, noisy) == "after" {
 			suspect = true
 		}
-		ev := verifsupport.Ev{"sc": sc.Sc, "ev": "Return", "ok": rErr == nil, "at": c08ClassT(rAt, noisy), "us": rAt.Microseconds()}
+		ev := verifsupport.Ev{"sc": sc.Sc, "ev": "Return", "call": ci + 1, "ok": rErr == nil, "at": c08ClassT(rAt, noisy), "us": rAt.Microseconds()}
 		if rErr != nil {
 			ev["error"] = rErr.Error()
 		}
@@ -684,23 +903,28 @@ func c08Observe(sc *c08Scenario, probe *c08Probe, attempt int) ([]verifsupport.E
 		return evs[a].rank < evs[b].rank
 	})
 	items := payload.items
-	lines := []verifsupport.Ev{{"sc": sc.Sc, "ev": "Reset", "sub": sc.Sub, "kind": sc.Kind, "conc": conc, "items": items,
-		"nodes": sc.Nodes, "T": c08T.Milliseconds(), "noiseUs": noise.Microseconds(), "noisy": noisy, "attempt": attempt + 1}}
+	head := "Reset"
+	if ci > 0 {
+		head = "NextCall"
+	}
+	lines := []verifsupport.Ev{{"sc": sc.Sc, "ev": head, "call": ci + 1, "calls": len(h.calls), "sub": sc.Sub, "kind": call.Kind, "conc": conc, "items": items,
+		"nodes": call.Nodes, "T": c08T.Milliseconds(), "noiseUs": noise.Microseconds(), "noisy": noisy, "attempt": attempt + 1}}
 	for _, e := range evs {
 		lines = append(lines, e.ev)
 	}
-	lines = append(lines, verifsupport.Ev{"sc": sc.Sc, "ev": "Finish", "us": end.Sub(wall0).Microseconds()})
+	lines = append(lines, verifsupport.Ev{"sc": sc.Sc, "ev": "Finish", "call": ci + 1, "us": end.Sub(wall0).Microseconds()})
 	return lines, noisy || suspect, nil
 }
 
 // c08Stalled tells whether the noise recorded in a scenario's Reset line is beyond anything the
 // ambiguous classes can absorb (a call that "never returned" would be meaningless).
 func c08Stalled(lines []verifsupport.Ev) bool {
-	if len(lines) == 0 {
-		return false
+	for _, l := range lines {
+		if us, ok := l["noiseUs"].(int64); ok && us > 400000 {
+			return true
+		}
 	}
-	us, ok := lines[0]["noiseUs"].(int64)
-	return ok && us > 400000
+	return false
 }
 
 // ---------------------------------------------------------------------------------------------
